@@ -435,6 +435,19 @@ class Ctx:
                 break
             outs += out[:n]
             summ = self.sanitizer_summary(err) or ("timeout" if rc in (-999, -14) else "crash:rc=%d" % rc)
+            if summ == "timeout" and not getattr(self, "_in_timeout_retry", False):
+                # a watchdog firing can be machine load, not a hang: the case is confirmed alone before it is believed
+                self._in_timeout_retry = True
+                try:
+                    time.sleep(2.0)
+                    again = self.run_impl_cases(binary, [todo[n]], env=env, timeout=timeout, args=args)
+                finally:
+                    self._in_timeout_retry = False
+                if again and not again[0].startswith("abort:timeout"):
+                    outs.append(again[0])
+                    self.stat("watchdog-fired-but-case-passed-alone")
+                    todo = todo[n + 1:]
+                    continue
             outs.append("abort:" + summ)
             self.last_abort_stderr = err[-4000:]
             todo = todo[n + 1:]
